@@ -26,7 +26,9 @@ CHECKS = {
         "inserting empty/blank/comment lines or a final newline does not change the structure. Every TLC state is rendered "
         "as DSDL text in several formatting variants, read with read_namespace and compared with the specification's "
         "result; accepted models are rendered back to canonical DSDL and re-read; the hook trace of every execution (flush / "
-        "commit / statement / finalize steps) must equal the step log the specification produces.",
+        "commit / statement / finalize steps) must equal the step log the specification produces; the steps recorded while the "
+        "repository's own tests and every single token mutation of three seed definitions (mostly rejected texts) are read are "
+        "judged one by one by TLC on TraceStatements.tla.",
    note="Bounded: all line sequences of length <=4 (quick) / <=5 (thorough) over a 17-symbol alphabet, <=3/4 over the "
         "full 27-symbol alphabet and <=7 over the identifier-scope alphabet (constants named alike in the request and the "
         "response part read by later constants and @print; RefsMirror); concrete tokens per kind are fixed (uint8 fields, uint16 constants, voidN paddings). "
